@@ -382,6 +382,11 @@ def k_exe_layout(run, case):
             # the table piped on (evo_res ... --save_table /dev/stdout | column -s, -t): a device is
             # no file that could be overwritten - written without a question, warnings enabled
             out_opts = ["--save_table", "/dev/stdout", "--silent"]
+        table_name = "table.csv"
+        if case.get("target") == "eq":
+            # --option=value spelling, the value holding dashes (dates, version tags)
+            table_name = "ape-stats_2024-05-01-v1.csv"
+            out_opts = ["--save_table=" + table_name, "--no_warnings"]
         if layout == "before":
             argv = opts + names + out_opts
         elif layout == "after":
@@ -390,7 +395,7 @@ def k_exe_layout(run, case):
             cut = int(rng.integers(1, k))
             argv = names[:cut] + opts + names[cut:] + out_opts
         pr = cli.run_subprocess("res", argv, work, os.environ["HOME"])
-        table = os.path.join(work, "table.csv")
+        table = os.path.join(work, table_name)
         if case.get("target") == "stdout" and layout != "between":
             run.seen(case, core.digest(layout, opts, k, "stdout"), cls=["evo_res executable, table written to /dev/stdout"],
                      sample={"argv": argv, "exit": pr.returncode})
@@ -430,7 +435,7 @@ def main(run):
         k_res(run, run.case("res", i))
     for i in run.mine({"quick": 12, "thorough": 120}[run.tier]):
         k_exe_layout(run, run.case("exe_layout", i, layout=["between", "before", "between", "after"][i % 4],
-                                   target="stdout" if i % 4 in (1, 3) and i % 8 >= 4 else None))
+                                   target="stdout" if i % 4 in (1, 3) and i % 8 >= 4 else "eq" if i % 4 in (1, 3) else None))
     run.need("evo_res executable: a row for every file on the command line", "merged statistic == arithmetic mean", "equal lengths: element-wise mean",
              "unequal lengths: concatenation in input order", "results with different keys refused",
              "single result returned unchanged", "info of the first result kept",
